@@ -51,7 +51,7 @@ def vjp_matrices(f, base, req, chunk=384):
         cots = []
         off = 0
         for o, m in zip(outs, osz):
-            c = torch.zeros_like(o)
+            c = torch.zeros(o.shape, dtype=o.dtype)      # contiguous, so the reshape below is a view
             lo, hi = max(r0, off), min(r1, off + m)
             if hi > lo:
                 rows = torch.arange(lo, hi)
@@ -91,7 +91,7 @@ def vjp_single(f, base, req, rows):
         cots = []
         off = 0
         for o, m in zip(outs, osz):
-            c = torch.zeros_like(o)
+            c = torch.zeros(o.shape, dtype=o.dtype)      # contiguous, so the reshape below is a view
             if off <= r < off + m:
                 c.reshape(1, -1)[0, r - off] = 1.0
             off += m
